@@ -191,9 +191,6 @@ class PairingFamily:
                 full = pm.pairing(Q, P)
                 if not pm.final_exponentiate(raw) == full:
                     return dict(why="final_exponentiate(pairing(Q, P, final_exponentiate=False)) != pairing(Q, P)", scalars=[a, b])
-                raw2 = pm.miller_loop(m.twist(Q), pm.cast_point_to_fq12(P), final_exponentiate=False) if hasattr(pm, "cast_point_to_fq12") else raw
-                if not pm.final_exponentiate(raw2) == full:
-                    return dict(why="final_exponentiate(miller_loop(.., final_exponentiate=False)) != pairing(Q, P)", scalars=[a, b])
             return None
         if k == "gates":
             infs1 = [m.Z1] if not opt else [m.Z1, m.neg(m.Z1), m.double(m.Z1), m.multiply(m.Z1, 3), (m.FQ(5), m.FQ(7), m.FQ(0)),
